@@ -777,3 +777,53 @@ pub fn nested_cases(sigil: Option<&'static str>) -> Vec<Case> {
     }
     out
 }
+
+// ---------------------------------------------------------------------------
+// HELPERS-N: many helpers in one module (the layout of the helper environment tree depends on their
+// number and kinds), each with a distinguishable result; and lambdas with k captured variables.
+
+pub fn many_helpers_cases(sigil: Option<&'static str>, max_n: usize) -> Vec<Case> {
+    let mut out = vec![];
+    let params = Pat::list(vec![Pat::n("A"), Pat::n("B")]);
+    let args = vec![T::list(&[T::int(5), T::int(7)]), T::list(&[T::list(&[T::int(1), T::int(2)]), T::int(-3)])];
+    for n in 1..=max_n {
+        // pattern: which helpers are inline / constants. 0: all defuns; 1: every third inline; 2: every second a defconstant
+        for mix in 0..3 {
+            let mut helpers = vec![];
+            let mut items = vec![];
+            for i in 0..n {
+                let name = format!("H{}", i);
+                if mix == 2 && i % 2 == 1 {
+                    helpers.push(Helper::Constant { name: name.clone(), datum: T::int(9000 + i as i64) });
+                    items.push(E::Var(name));
+                } else {
+                    // each function also calls its predecessor function (if any), so paths to OTHER helpers are exercised inside helpers
+                    let prev = (0..i).rev().find(|j| !(mix == 2 && j % 2 == 1));
+                    let body = match prev {
+                        Some(j) if i % 2 == 0 => E::List(vec![E::int(100 + i as i64), E::v("P"), E::call(&format!("H{}", j), vec![E::v("Q")])]),
+                        _ => E::List(vec![E::int(100 + i as i64), E::v("Q"), E::v("P")]),
+                    };
+                    helpers.push(Helper::Fun { name: name.clone(), inline: mix == 1 && i % 3 == 2, params: Pat::list(vec![Pat::n("P"), Pat::n("Q")]), body });
+                    items.push(E::call(&name, vec![E::v("A"), E::v("B")]));
+                }
+            }
+            out.push(Case { prog: Prog { sigil, params: params.clone(), helpers, body: E::List(items) }, args: args.clone(), tags: vec![format!("helpers-n/{}", n), format!("mix{}", mix)] });
+        }
+    }
+    // lambdas capturing k variables, applied at once and passed to a helper that applies them
+    for k in 1..=4usize {
+        for via_helper in [false, true] {
+            let names: Vec<String> = (0..k).map(|i| format!("C{}", i)).collect();
+            let binds: Vec<(String, E)> = names.iter().enumerate().map(|(i, n)| (n.clone(), E::prim("c", vec![E::int(i as i64), if i % 2 == 0 { E::v("A") } else { E::v("B") }]))).collect();
+            let lam = E::Lambda(names.clone(), Pat::list(vec![Pat::n("Z")]), Box::new(E::List(std::iter::once(E::v("Z")).chain(names.iter().map(|n| E::Var(n.clone()))).collect())));
+            let (helpers, use_it) = if via_helper {
+                (vec![Helper::Fun { name: "APPLY1".into(), inline: false, params: Pat::list(vec![Pat::n("F"), Pat::n("V")]), body: E::Apply(Box::new(E::v("F")), Box::new(E::List(vec![E::v("V")]))) }], E::call("APPLY1", vec![lam, E::int(77)]))
+            } else {
+                (vec![], E::Apply(Box::new(lam), Box::new(E::List(vec![E::int(77)]))))
+            };
+            let body = E::Let(LetKind::Let, binds, Box::new(use_it));
+            out.push(Case { prog: Prog { sigil, params: params.clone(), helpers, body }, args: args.clone(), tags: vec![format!("lambda-captures/{}", k), format!("via-helper:{}", via_helper)] });
+        }
+    }
+    out
+}
